@@ -311,8 +311,16 @@ NameEdits(c) ==
       pd(i) == IsInterest(c) /\ cs[i].t = TParamsDigest
       sg(b) == IF ~Signed(c) THEN "na" ELSE IF b THEN "reject" ELSE "either"
       dg(b) == IF ~NeedDigest(c) THEN "na" ELSE IF b THEN "fail" ELSE "same"
+      \* one more component of the parameters-digest TYPE (insd: 32 fresh octets, insds: 4 octets, before component i,
+      \* i = n + 1 appends; dup of the digest component itself).  "All name components except the parameters digest"
+      \* exempts one component - the edited name has a component the signed name has not, so the packet differs from the
+      \* signed one in its signed portion: must-reject (by the decoder or by the verifier).  Which of two components
+      \* "its digest component" is, is not defined: the digest check may go either way ("na").
+      twin == IF IsInterest(c) /\ Signed(c) /\ NeedDigest(c) THEN {"insd", "insds"} ELSE {}
   IN { Ed("name", "del", i, sg(~pd(i)), dg(pd(i))) : i \in 1..n }
      \cup { Ed("name", "dup", i, sg(TRUE), dg(FALSE)) : i \in { j \in 1..n : ~pd(j) } }
+     \cup { Ed("name", "dup", i, sg(TRUE), "na") : i \in { j \in 1..n : pd(j) /\ Signed(c) } }
+     \cup { Ed("name", op, i, "reject", "na") : op \in twin, i \in 1..(n + 1) }
      \cup { Ed("name", "swap", i, sg(~pd(i) /\ ~pd(i + 1)), dg(FALSE)) : i \in 1..(n - 1) }
 
 Edits(c) == TopEdits(c) \cup NameEdits(c)
